@@ -37,12 +37,12 @@ theorem complete_prefix (c : DCfg) (p : Bytes) :
 theorem complete_message (c : DCfg) (e : Env) (d : Bytes) (he : e.len ≠ 0) :
     dComplete c (afterPrefix c e) d =
       (DSt.init, DEv.data (some e) e.len ::
-        (if (!c.isReq && isEndFlag e.flags) = true ∧ (c.dec.content d).isEmpty = false then [DEv.eos (c.dec.content d)] else [])) := by
+        (if (!c.isReq && isEndFlag e.flags) = true ∧ (c.dec.contentF e.flags d).isEmpty = false then [DEv.eos (c.dec.contentF e.flags d)] else [])) := by
   have hexp : ¬ (afterPrefix c e).expecting = 0 := he
   unfold dComplete
   rw [if_neg hexp]
   by_cases hf : (!c.isReq && isEndFlag e.flags) = true
-  · cases h : (c.dec.content d).isEmpty <;> simp [afterPrefix, DSt.init, hf, h]
+  · cases h : (c.dec.contentF e.flags d).isEmpty <;> simp [afterPrefix, DSt.init, hf, h]
   · simp [afterPrefix, DSt.init, hf]
 
 theorem afterPrefix_inv (c : DCfg) (e : Env) (he : e.len ≠ 0) (hl : e.len < two32) : DInv (afterPrefix c e) := by
@@ -60,8 +60,8 @@ theorem spec_unfold (isReq : Bool) (dec : DecKind) (fuel : Nat) (p rest : Bytes)
       (if rest.length < be32 (p.drop 1) then (if rest.isEmpty then [] else [Msg.data (some ⟨(p.headD 0).toNat, be32 (p.drop 1)⟩) rest.length])
        else
         Msg.data (some ⟨(p.headD 0).toNat, be32 (p.drop 1)⟩) (be32 (p.drop 1)) ::
-          (if !isReq && isEndFlag (p.headD 0).toNat && be32 (p.drop 1) != 0 && !(dec.content (rest.take (be32 (p.drop 1)))).isEmpty
-            then [Msg.eos (dec.content (rest.take (be32 (p.drop 1))))] else []) ++
+          (if !isReq && isEndFlag (p.headD 0).toNat && be32 (p.drop 1) != 0 && !(dec.contentF (p.headD 0).toNat (rest.take (be32 (p.drop 1)))).isEmpty
+            then [Msg.eos (dec.contentF (p.headD 0).toNat (rest.take (be32 (p.drop 1))))] else []) ++
           specMsgsAux isReq dec fuel (rest.drop (be32 (p.drop 1)))) := by
   match p, hp with
   | [a, b, c, d, e], _ =>
@@ -147,7 +147,7 @@ theorem run_init_spec (c : DCfg) : ∀ (fuel : Nat) (body : Bytes), body.length 
           congr 1
           congr 1
           by_cases hf : (!c.isReq && isEndFlag fl) = true
-          · cases hcont : (c.dec.content m).isEmpty <;> simp [hf, hcont, hnz, DEv.msg]
+          · cases hcont : (c.dec.contentF fl m).isEmpty <;> simp [hf, hcont, hnz, DEv.msg]
           · have hf' : (!c.isReq && isEndFlag fl) = false := by simpa using hf
             simp [hf', hf]
 
